@@ -196,7 +196,7 @@ impl SubCheck for Bookkeeping {
 pub fn check(ctx: &mut Ctx) {
 	ctx.rule = "histories over 1..2 connections and caps 0..3: subscribe, Accept / Reject / DropPending / Return(Ok|Err|Notif), sink clone / drop, send / try_send, is_closed / closed(), unsubscribe (own / another connection's / stale / garbage id, right or other unsubscribe method), peer close (clean/abrupt); \
 		for a share of the histories an abrupt drop of connection 0 is injected after EVERY step (fault placement). Oracle: model of active ids and held permits per connection: unsubscribe answers true iff the id is active on that connection, subscribe is refused with -32006 iff held permits == cap, \
-		is_closed()/closed()/send agree with the model, never more than cap instances, and after all handlers returned `cap` new subscriptions start and one more is refused. Non-trivial = >= 1 refusal or an unsubscribe answered false, with >= 2 instances; distinct by case value."
+		is_closed()/closed()/send agree with the model, never more than cap instances, and after all handlers returned `cap` new subscriptions start and one more is refused. Non-trivial = >= 1 refusal or an unsubscribe answered false, with >= 2 instances; distinct by case value. Further dimensions: connection slots that reconnect (a new connection in the place of one that left), subscription ids handed out again by the id provider when that is legitimate, string ids that need escaping, services built per connection through set_rpc/http_middleware; every subscribe call whose handler decided is answered exactly once. Sub-checks module-level (Methods::raw_json_request incl. a raw subscription whose call is given up) and call-given-up-by-middleware (an RPC middleware answers the subscribe call itself before the raw handler accepts)."
 		.into();
 	ctx.assumptions = vec![
 		"every step is followed by a run-until-idle barrier, so the model is exact (no concurrency inside a step)".into(),
